@@ -75,6 +75,21 @@ PROPS = {
         "assumptions": ["IP listener only in this check (the SCION listener shares ValidateRequest and handleRequest; its addressing clause is C13's)",
                         "a datagram is given 5 ms of virtual time to be answered; replies are attributed through the simulator's causality tracking (which datagram the answering socket had read last)"],
     },
+    "C11": {
+        "level": "exploration",
+        "budget": {"quick": 80, "thorough": 900},
+        "runs": {"quick": 3000, "thorough": 300000},
+        "rule": "one run = 6..45 measurement attempts of the real IPClient with NTS (real Fetcher) against the real NTS-KE server (real TLS 1.3 on simulated TCP) and 2 real NTP listeners with the real key Provider; "
+                "loss bursts of length 1..10 on requests or on responses in 3/4 of the runs (bursts of 7 and more only in 1/5 of those), idle gaps of 1 h..5 d between attempts in 1/3 of the runs "
+                "(server key renewal and retirement, cookies expiring, re-keying); every request and reply on the wire is parsed by the harness's own RFC 8915 field walker and authenticated independently with miscreant; "
+                "non-trivial = at least two successful exchanges; distinct = distinct event-log hash",
+        "required_probes": ["exchange-ok", "reply-verified", "re-keyed", "pool-restored", "request-at-level-8", "request-at-level-5"],
+        "components": {"real": ["net/ntske Fetcher (FetchData, StoreCookie), Provider, cookies", "net/nts NewRequestPacket, EncodePacket, DecodePacket, ProcessRequest/Response, NewResponsePacket",
+                                "core/server runIPServer (authenticated branch), handleKeyExchangeTLS", "core/client IPClient", "crypto/tls"],
+                       "stub": dict(STUBS_COMMON, **{"kernel UDP/TCP": "simnet"})},
+        "assumptions": ["pool level is read through the export shim before each attempt and cross-checked with the placeholder count on the wire",
+                        "'as many as fit' is judged with the request's cookie length: fewer cookies than requested are accepted only if one more would exceed 1024 bytes"],
+    },
     "C12": {
         "level": "exploration",
         "budget": {"quick": 40, "thorough": 600},
@@ -169,7 +184,7 @@ NOT_APPLICABLE = {
 
 # Properties that the design claims but whose world is not built yet (kept current).
 NOT_YET = {p: "designed (DESIGN.md section 3) but the simulated world is not built yet; not claimed until its check runs"
-           for p in ["C05", "C08", "C10", "C11", "C13", "C14", "C15"]}
+           for p in ["C05", "C08", "C10", "C13", "C14", "C15"]}
 
 PROPS["C01"].update(
     level_text="seeded exploration of multi-round histories of the real synchronization loop with scripted sources (values over the whole int64 range, failures, late answers, sources that never answer) and admissible/inadmissible configurations; per-round invariants: exactly one correction, magnitude bounds from the statement, exact value when every source answered in time, correction no later than the round's timeout; start-up refusal of inadmissible settings. Evidence, not proof.",
@@ -203,6 +218,10 @@ PROPS["C20"].update(
     level_text="seeded exploration of key-exchange histories between the real NTS-KE client and a real or scripted TLS peer on a simulated TCP transport: success only for offers the statement allows, success for every well-formed offer, keys equal to the peer's RFC 8915 exporter values (or, for the real server, to the keys sealed in its cookies), pool equal to the issued cookies in order, destination of the following request, and nothing left behind by a failed exchange. Evidence, not proof.",
     level_note="TLS transport only (QUIC not simulated); crypto/rand pinned per run; scripted peer encodes records with its own encoder",
     technique="deterministic simulation with fault injection: scripted TLS peer, stream segmentation and cuts, history oracle over attempts")
+PROPS["C11"].update(
+    level_text="seeded exploration of exchange histories with loss bursts, idle days (key rotation/retirement) and re-keying between the real NTS client, key-exchange server and NTP listeners; a wire monitor decides cookie single use, cookie/placeholder typing and count, request and reply size, reply authenticity, freshness and validity of issued cookies; pool accounting after every attempt. Evidence, not proof.",
+    level_note="IP transport; the monitor's field walker and AEAD check are independent of the repository's decoder; server restart is not injected in this tier",
+    technique="deterministic simulation with fault injection: scripted loss bursts and virtual-time key rotation, wire monitor + pool model")
 PROPS["C12"].update(
     level_text="seeded exploration of call histories and statement-level interleavings of the real Provider under a virtual clock over weeks of virtual time; per-call invariants from the statement plus a porcupine linearizability check against a permissive model. Evidence, not proof.",
     level_note="trusts testing/synctest's fake clock, the simulator-aware mutex substituted for sync.Mutex, and that interleavings finer than statements do not matter; constants (24h, 3d, 2d) are taken from the property statement",
